@@ -52,7 +52,14 @@ func init() {
 	pg := profGeneral.withKinds("GSAP")
 	pg.bigWin = true
 	pg.wParseNil = 0
-	suites["p-gsap"] = pSuite(pg, []string{"gsap.match.checked"})
+	pgs := pSuite(pg, []string{"gsap.match.checked"})
+	suites["p-gsap"] = func(r *rng, id string, cnt counters, emit func(line, out string)) ([]finding, bool) {
+		if len(id) > 2 && id[len(id)-2:] == ".0" { // the first script of every shard: matches longer than 1 KiB
+			e := genPMidSA(r, id, cnt, emit)
+			return e.finds, true
+		}
+		return pgs(r, id, cnt, emit)
+	}
 	pt := profGeneral
 	pt.twin = true
 	pt.wReset = 14
@@ -62,6 +69,9 @@ func init() {
 	pt.badCfgPct = 0
 	suites["p-reset"] = pSuite(pt, []string{"p.twin.fresh"})
 	suites["p-large"] = func(r *rng, id string, cnt counters, emit func(line, out string)) ([]finding, bool) {
+		if id == "0.1" || id == "4.1" {
+			return genPOsapFar(r, id, cnt, emit).finds, true
+		}
 		if r.chance(25) && id[len(id)-2:] != ".0" {
 			return genPLargeWrap(r, id, cnt, emit), true
 		}
